@@ -23,7 +23,7 @@ fn streams() -> Vec<Stream> {
     vec![
         Stream { name: "scenarios", count: (25_000, 1_000_000), exhaustive: false, run: |c, r, _| scenario(c, r, Focus::default(), c18_monitor) },
         Stream { name: "scenarios-overlap", count: (25_000, 800_000), exhaustive: false, run: ov },
-        Stream { name: "many-signers", count: (220, 4_000), exhaustive: false, run: many_signers },
+        Stream { name: "many-signers", count: (330, 6_000), exhaustive: false, run: many_signers },
     ]
 }
 fn ov(c: &mut Ctx, r: &mut Rng, _i: u64) {
@@ -68,7 +68,11 @@ fn many_signers(ctx: &mut Ctx, r: &mut Rng, i: u64) {
             tb.add_key_input(&h, &input, &Value::new(&BigNum::from(2_000_000u64 + j)));
         }
         let pay = EnterpriseAddress::new(1, &Credential::from_keyhash(&Ed25519KeyHash::from_bytes(kh(100_000)).map_err(|e| format!("{:?}", e))?)).to_address();
-        tb.add_output(&TransactionOutput::new(&pay, &Value::new(&BigNum::from(1_500_000u64)))).map_err(|e| format!("{:?}", e))?;
+        // the number of OUTPUTS crosses the same boundaries now and then (they all fit: every input brings 2 ADA)
+        let n_out = if n < 100 { [1u64, 1, 23, 24, 25][((i / NS.len() as u64) % 5) as usize] } else { [1u64, 1, 24, 255, 256, 257][((i / NS.len() as u64) % 6) as usize] };
+        for k in 0..n_out {
+            tb.add_output(&TransactionOutput::new(&pay, &Value::new(&BigNum::from(1_500_000u64 + k)))).map_err(|e| format!("{:?}", e))?;
+        }
         let chg = EnterpriseAddress::new(1, &Credential::from_keyhash(&Ed25519KeyHash::from_bytes(kh(100_001)).map_err(|e| format!("{:?}", e))?)).to_address();
         tb.add_change_if_needed(&chg).map_err(|e| format!("{:?}", e))?;
         let predicted = tb.full_size().map_err(|e| format!("{:?}", e))?;
